@@ -99,7 +99,7 @@ def validate(res, scratch, tp, byid):
             sc = byid.get(sid, {})
             res.report({"property": "C02", "engine": sid, "why": v["why"], "event": v["ev"], "mode": sc.get("mode"),
                         "transport": sc.get("transport"), "async": sc.get("async"), "exec": sc.get("exec"), "leg": sc.get("leg", "real"),
-                        "pending": bool(sc.get("pending")), "backlog": bool(sc.get("backlog")),
+                        "pending": bool(sc.get("pending")), "backlog": bool(sc.get("backlog")), "writeduring": bool(sc.get("writeduring")),
                         "script": sc, "trace": events[max(i, v["line"] - 12):v["line"]],
                         "replay_key": {"id": sid if not sc.get("steps") else None, "why": v["why"],
                                        "steps": [(x.get("t"), x.get("env"), x.get("m")) for x in sc.get("steps", [])]}})
@@ -136,6 +136,13 @@ def matrix(tier, seed):
                 out.append({"id": "%s-%s-default-%s-backlog" % (mode, "async" if asyncr else "sync", transport), "mode": mode, "async": asyncr,
                             "exec": "default", "npoller": 1, "rbuf": 4096, "maxread": 3, "transport": transport,
                             "seed": rnd.randrange(1 << 40), "conns": 2, "idle_ms": 100, "slow": False, "backlog": True})
+    # while a slow data callback runs with more input pending, another goroutine writes a block that leaves a backlog (the
+    # writing side re-arms the descriptor): the rest of the input must still be delivered in order by ONE reader
+    for mode in ("LT", "ET", "OS"):
+        for asyncr in (False, True):
+            out.append({"id": "%s-%s-default-tcp-writeduring" % (mode, "async" if asyncr else "sync"), "mode": mode, "async": asyncr,
+                        "exec": "default", "npoller": 1, "rbuf": 1024, "maxread": 3, "transport": "tcp",
+                        "seed": rnd.randrange(1 << 40), "conns": 2, "idle_ms": 100, "slow": False, "writeduring": True})
     return out
 
 
